@@ -7,6 +7,7 @@ usage: judge sys < trace     (trace lines: `<op>\t<impl result>`; first line `cf
 -/
 import Iggy.Sys.Model
 import Iggy.Sys.Spec
+import Iggy.Perm.Enum
 open Iggy Iggy.Log Iggy.Sys
 
 namespace Driver
@@ -504,8 +505,38 @@ def main (args : List String) : IO UInt32 := do
     IO.println ("COV " ++ " ".intercalate (st.cov.map (fun e => s!"{e.1}={e.2}")))
     IO.println s!"DONE lines={st.line} modelled={st.modelled} corr={st.corr} spec={st.specViol}"
     return 0
+  | ["permsound", a, b] =>
+    -- search the enumerated space for an input on which a generated rule violates the specification
+    let a := a.toNat?.getD 0
+    let b := b.toNat?.getD 0
+    let mut i := a
+    let mut bad := 0
+    while i < b do
+      let u := Perm.unsoundAt i
+      if !u.isEmpty then
+        bad := bad + 1
+        if bad ≤ 20 then IO.println s!"UNSOUND idx={i} rules={u}"
+      i := i + 1
+    IO.println s!"DONE checked={b - a} unsound={bad}"
+    return 0
+  | ["perm", a, b, variant] =>
+    -- exhaustive table of the generated permission rules (C09), same line format as `harness perm`
+    let a := a.toNat?.getD 0
+    let b := b.toNat?.getD 0
+    let (ks, kt, ku) :=
+      if variant == "other-stream" then (Perm.S + 1, Perm.T, Perm.U)
+      else if variant == "other-topic" then (Perm.S, Perm.T + 1, Perm.U)
+      else if variant == "other-user" then (Perm.S, Perm.T, Perm.U + 1)
+      else (Perm.S, Perm.T, Perm.U)
+    let out ← IO.getStdout
+    out.putStrLn ("rules " ++ ",".intercalate Perm.publicRules)
+    let mut i := a
+    while i < b do
+      out.putStrLn (Perm.evalLine i ks kt ku)
+      i := i + 1
+    return 0
   | _ =>
-    IO.eprintln "usage: judge sys < trace"
+    IO.eprintln "usage: judge sys < trace | judge perm <from> <to> <variant>"
     return 2
 
 end Driver
